@@ -225,3 +225,35 @@ func VH_C10_C16_ByteSequence() {
 		vh.Reach("reject")
 	}
 }
+
+// VH_C10_C16_ParamShapes: semi-structured parameterised identifiers "a" (";" k v)* with 1..3 parameters whose
+// key is ONE symbolic byte and whose value shape is chosen from {none, "=1", "=x", "=\"\""}, optional OWS around
+// ';': the region of duplicate-parameter handling (first/second occurrence with or without value), which needs
+// inputs longer than the fully symbolic strings of VH_C10_C16_ParamListVsGrammar.
+func VH_C10_C16_ParamShapes() {
+	vh.MustReach("accept", "reject-dup")
+	n := 1 + vh.Choose(3)
+	in := "a"
+	var ks []string
+	for i := 0; i < n; i++ {
+		k := vh.String([]string{"k0", "k1", "k2"}[i], 1)
+		ks = append(ks, k)
+		sep := []string{";", " ; ", ";\t"}[vh.Choose(3)]
+		in += sep + k + []string{"", "=1", "=x", "=\"\""}[vh.Choose(4)]
+	}
+	got, err := ParseParameterisedList(in)
+	want, ok := refParseParamList(in)
+	vh.Assert((err == nil) == ok, "accepts exactly the grammar (parameter shapes)")
+	if err == nil && ok {
+		vh.Reach("accept")
+		vh.Assert(len(got) == 1 && len(want) == 1 && len(got[0].Params) == len(want[0].params), "same parameters")
+		if len(got) == 1 && len(want) == 1 {
+			for _, q := range want[0].params {
+				v, present := got[0].Params[Key(q.key)]
+				vh.Assert(present && refItemEq(v, q.val), "same parameter value")
+			}
+		}
+	} else if n >= 2 && ks[0] == ks[1] {
+		vh.Reach("reject-dup")
+	}
+}
